@@ -1,6 +1,6 @@
 (* Iterator_Proofs.v - the postings iterator of Postings.v refines the
    cursor specification of Spec.v (spec_step / spec_run). *)
-From Coq Require Import List NArith Bool Lia Sorting.Sorted.
+From Coq Require Import List Arith NArith Bool Lia Sorting.Sorted.
 From Ice Require Import Base Varint Chunk Spec Postings.
 From IceProofs Require Import Sort_Proofs Varint_Proofs.
 Import ListNotations.
@@ -167,3 +167,1062 @@ Proof.
     + rewrite ?lenN_app in *. lia.
     + rewrite ?lenN_app in *. lia.
 Qed.
+
+Lemma skipn_exact {A} (a b : list A) (n : N) : lenN a = n -> skipn (N.to_nat n) (a ++ b) = b.
+Proof.
+  intros H. unfold lenN in H. subst n. rewrite Nat2N.id.
+  rewrite skipn_app, skipn_all, Nat.sub_diag. reflexivity.
+Qed.
+
+Lemma loc_entry_has (p : EPosting) : ep_hasLocs p = true ->
+  loc_entry p = put_uvarint (sumN (map loc_size (ep_locs p))) ++ flat_map' loc_bytes (ep_locs p).
+Proof.
+  unfold ep_hasLocs, loc_entry. destruct (ep_locs p); [discriminate | reflexivity].
+Qed.
+
+Lemma loc_entry_hasnt (p : EPosting) : ep_hasLocs p = false -> loc_entry p = [] /\ ep_locs p = [].
+Proof.
+  unfold ep_hasLocs, loc_entry. destruct (ep_locs p); [split; reflexivity | discriminate].
+Qed.
+
+Lemma freq_entry_nonempty (p : EPosting) (rest : bytes) : freq_entry p ++ rest <> [].
+Proof.
+  unfold freq_entry. intros H. apply app_eq_nil in H. destruct H as [H _].
+  apply app_eq_nil in H. destruct H as [H _]. exact (put_uvarint_nonempty _ H).
+Qed.
+
+(* ================================================================== *)
+(* (B) chunk streams and sortedness                                    *)
+(* ================================================================== *)
+
+Lemma CS_cons enc cs c p l :
+  chunk_stream enc cs c (p :: l) = (if ep_doc p / cs =? c then enc p else []) ++ chunk_stream enc cs c l.
+Proof. reflexivity. Qed.
+
+Lemma CS_cons_in enc cs c p l : ep_doc p / cs = c ->
+  chunk_stream enc cs c (p :: l) = enc p ++ chunk_stream enc cs c l.
+Proof. intros H. rewrite CS_cons. subst c. rewrite N.eqb_refl. reflexivity. Qed.
+
+Lemma CS_cons_out enc cs c p l : ep_doc p / cs <> c ->
+  chunk_stream enc cs c (p :: l) = chunk_stream enc cs c l.
+Proof.
+  intros H. rewrite CS_cons. apply N.eqb_neq in H. rewrite H. reflexivity.
+Qed.
+
+Lemma CS_app enc cs c a b :
+  chunk_stream enc cs c (a ++ b) = chunk_stream enc cs c a ++ chunk_stream enc cs c b.
+Proof.
+  induction a as [| p a IH]; [reflexivity |].
+  cbn [app]. rewrite !CS_cons, IH, app_assoc. reflexivity.
+Qed.
+
+Lemma CS_other enc cs c a : Forall (fun p => ep_doc p / cs <> c) a -> chunk_stream enc cs c a = [].
+Proof.
+  induction 1 as [| p a Hp Ha IH]; [reflexivity |].
+  rewrite CS_cons_out by exact Hp. exact IH.
+Qed.
+
+Lemma CS_all_empty enc cs c a : Forall (fun p => enc p = []) a -> chunk_stream enc cs c a = [].
+Proof.
+  induction 1 as [| p a Hp Ha IH]; [reflexivity |].
+  rewrite CS_cons, Hp, IH. destruct (_ =? _); reflexivity.
+Qed.
+
+Lemma nthN_map_seq {A} (f : nat -> A) : forall n s c, (c < n)%nat -> nthN (map f (seq s n)) c = Some (f (s + c)%nat).
+Proof.
+  induction n as [| n IH]; intros s c Hc; [lia |].
+  cbn [seq map]. destruct c as [| c]; cbn [nthN].
+  - rewrite Nat.add_0_r. reflexivity.
+  - rewrite IH by lia. f_equal. f_equal. lia.
+Qed.
+
+Lemma nthN_chunks enc cs total ps c : (N.to_nat c < total)%nat ->
+  nthN (chunks_of enc cs total ps) (N.to_nat c) = Some (chunk_stream enc cs c ps).
+Proof.
+  intros H. unfold chunks_of. rewrite nthN_map_seq by exact H.
+  cbn [Nat.add]. rewrite N2Nat.id. reflexivity.
+Qed.
+
+Lemma sorted_app_inv {A} (R : A -> A -> Prop) (a b : list A) :
+  StronglySorted R (a ++ b) -> StronglySorted R b /\ forall x y, In x a -> In y b -> R x y.
+Proof.
+  induction a as [| z a IH]; cbn [app]; intros H.
+  - split; [exact H | intros x y []].
+  - inversion H as [| ? ? Hs Hf]; subst. destruct (IH Hs) as [Hb Hab].
+    split; [exact Hb |]. intros x y [Hx | Hx] Hy.
+    + subst x. rewrite Forall_forall in Hf. apply Hf. apply in_or_app. right. exact Hy.
+    + apply Hab; assumption.
+Qed.
+
+Lemma sorted_map_doc (ps : list EPosting) :
+  StronglySorted (fun p q => ep_doc p < ep_doc q) ps -> StronglySorted N.lt (map ep_doc ps).
+Proof.
+  induction 1 as [| p ps Hs IH Hf]; cbn [map]; constructor; [exact IH |].
+  rewrite Forall_forall in *. intros x Hx. apply in_map_iff in Hx.
+  destruct Hx as (q & <- & Hq). apply Hf. exact Hq.
+Qed.
+
+Lemma filter_true {A} (l : list A) : filter (fun _ => true) l = l.
+Proof. induction l as [| x l IH]; cbn [filter]; [| rewrite IH]; reflexivity. Qed.
+
+Lemma filter_map_comm {A B} (f : A -> B) (g : B -> bool) (l : list A) :
+  filter g (map f l) = map f (filter (fun x => g (f x)) l).
+Proof.
+  induction l as [| x l IH]; [reflexivity |]. cbn [map filter].
+  destruct (g (f x)); cbn [map]; rewrite IH; reflexivity.
+Qed.
+
+(* ---- the decoding tail of next_at_or_after, named ---- *)
+Definition finish (i1 : It) (n : N) : result (It * option APosting) :=
+  if negb (it_fn i1) then Ok (i1, Some (n, (0, (0, []))))
+  else if negb (it_norm1 i1 =? 0) then Ok (i1, Some (n, (1, (wrap32 (it_norm1 i1), []))))
+  else
+    do (fhl, fr1) <- read_uv (it_fr i1);
+    do (nb, fr2) <- read_uv fr1;
+    let i2 := set_fr i1 fr2 in
+    let freq := N.shiftr fhl 1 in
+    if it_locs i2 && N.odd fhl then
+      do (nlb, lr1) <- read_uv (it_lr i2);
+      do (ls, lr2) <- read_locs (N.to_nat freq) (it_fields i2) lr1 (dec_len lr1) nlb;
+      Ok (set_lr i2 lr2, Some (n, (freq, (wrap32 nb, ls))))
+    else Ok (i2, Some (n, (freq, (wrap32 nb, [])))).
+
+Lemma naa_unfold (i : It) (d : N) :
+  next_at_or_after i d
+  = do (i1, o) <- next_docnum i d;
+    match o with None => Ok (i1, None) | Some n => finish i1 n end.
+Proof. reflexivity. Qed.
+
+Definition ccn_tail (i1 : It) : result It :=
+  do (fhl, fr1) <- read_uv (it_fr i1);
+  do fr2 <- skip_uv fr1;
+  let i2 := set_fr i1 fr2 in
+  if it_locs i2 && N.odd fhl then
+    do (nb, lr1) <- read_uv (it_lr i2);
+    Ok (set_lr i2 (dec_skip_bytes lr1 nb))
+  else Ok i2.
+
+Lemma ccn_unfold (i : It) (c : N) :
+  currChunkNext i c
+  = do i1 <- (if need_load i c then it_loadChunk i c else Ok i); ccn_tail i1.
+Proof. reflexivity. Qed.
+
+Definition d_of (op : iter_op) : N := match op with INext => 0 | IAdvance d => d end.
+
+Lemma it_step_d_of (i : It) (op : iter_op) : it_step i op = next_at_or_after i (d_of op).
+Proof. destruct op; reflexivity. Qed.
+
+Lemma drop_below_0 (st : list APosting) : drop_below 0 st = st.
+Proof.
+  destruct st as [| p st]; [reflexivity |]. cbn [drop_below].
+  replace (fst p <? 0) with false by lia. reflexivity.
+Qed.
+
+Lemma spec_step_d_of (st : list APosting) (op : iter_op) :
+  spec_step st op = spec_step st (IAdvance (d_of op)).
+Proof. destruct op; [| reflexivity]. unfold spec_step, d_of. rewrite drop_below_0. reflexivity. Qed.
+
+(* ================================================================== *)
+(* counts and the 1-hit encoding                                       *)
+(* ================================================================== *)
+
+Lemma filter_length_split {A} (f : A -> bool) (l : list A) :
+  (length (filter f l) + length (filter (fun x => negb (f x)) l) = length l)%nat.
+Proof.
+  induction l as [| x l IH]; [reflexivity |]. cbn [filter].
+  destruct (f x); cbn [negb length]; lia.
+Qed.
+
+Theorem count_refines (cs : N) (total : nat) (ps : list EPosting) (except : option (list N)) :
+  pl_count (encode_gen cs total ps) except
+  = lenN (filter (fun p => live_opt except (ep_doc p)) ps).
+Proof.
+  unfold encode_gen, pl_count. destruct except as [ex |]; cbn [live_opt].
+  - rewrite filter_map_comm. unfold lenN. rewrite !map_length.
+    pose proof (filter_length_split (fun x => memN (ep_doc x) ex) ps) as H. cbv beta in H. lia.
+  - rewrite filter_true. unfold lenN. rewrite map_length. reflexivity.
+Qed.
+
+Theorem count_refines_1hit (doc nb : N) (except : option (list N)) :
+  pl_count (E1Hit doc nb) except = lenN (filter (fun d => live_opt except d) [doc]).
+Proof.
+  unfold pl_count. destruct except as [ex |]; cbn [live_opt filter]; [| reflexivity].
+  destruct (memN doc ex); reflexivity.
+Qed.
+
+Lemma spec_out_nil (a b : bool) (ops : list iter_op) : spec_out a b [] ops = map (fun _ => None) ops.
+Proof.
+  unfold spec_out. induction ops as [| op ops IH]; [reflexivity |].
+  cbn [spec_run]. replace (spec_step [] op) with (@nil APosting, @None APosting) by (destruct op; reflexivity).
+  cbn [map option_map]. rewrite IH. reflexivity.
+Qed.
+
+Lemma run_finished_1hit nb a b cl cs cur fr lr fn locs fields (ops : list iter_op) :
+  nb <> 0 ->
+  it_run (mkIt nb docNum1HitFinished a b cl cs cur fr lr fn locs fields) ops = Ok (map (fun _ => None) ops).
+Proof.
+  intros Hnb. apply N.eqb_neq in Hnb.
+  induction ops as [| op ops IH]; [reflexivity |].
+  cbn [it_run]. rewrite it_step_d_of, naa_unfold. unfold next_docnum.
+  cbn [it_norm1 it_doc1]. rewrite Hnb. cbn [negb]. rewrite N.eqb_refl.
+  rewrite !rbind_ok. rewrite IH. reflexivity.
+Qed.
+
+Theorem iter_refines_1hit (doc nb : N) (except : option (list N)) (inclFN inclLocs : bool)
+        (fields : list bytes) (old : option It) (ops : list iter_op) :
+  nb <> 0 -> nb < two32 -> doc < two32 ->
+  it_run (it_init (E1Hit doc nb) except inclFN inclLocs fields old) ops
+  = Ok (spec_out inclFN inclLocs
+          (filter (fun p => live_opt except (fst p)) [(doc, (1, (nb, [])))]) ops).
+Proof.
+  intros Hnb Hnb32 Hdoc.
+  unfold it_init. cbn [filter fst].
+  assert (Hlive : (match except with Some ex => if memN doc ex then docNum1HitFinished else doc | None => doc end)
+                  = if live_opt except doc then doc else docNum1HitFinished).
+  { destruct except as [ex |]; cbn [live_opt]; [destruct (memN doc ex) |]; reflexivity. }
+  rewrite Hlive. clear Hlive.
+  destruct (live_opt except doc).
+  2:{ rewrite run_finished_1hit by exact Hnb. rewrite spec_out_nil. reflexivity. }
+  destruct ops as [| op ops]; [reflexivity |].
+  cbn [it_run]. rewrite it_step_d_of, naa_unfold. unfold next_docnum.
+  cbn [it_norm1 it_doc1]. pose proof Hnb as Hnb'. apply N.eqb_neq in Hnb'. rewrite Hnb'. cbn [negb].
+  assert (Hfin : (doc =? docNum1HitFinished) = false).
+  { apply N.eqb_neq. unfold docNum1HitFinished, two32 in *. lia. }
+  rewrite Hfin.
+  unfold spec_out. cbn [spec_run]. rewrite spec_step_d_of. unfold spec_step. cbn [drop_below fst].
+  destruct (doc <? d_of op).
+  - rewrite !rbind_ok. unfold set_doc1. cbn [it_norm1 it_doc1 it_all it_actual it_clean it_cs it_cur it_fr it_lr it_fn it_locs it_fields].
+    rewrite run_finished_1hit by exact Hnb.
+    cbn [map option_map].
+    pose proof (spec_out_nil inclFN inclLocs ops) as Hnil; unfold spec_out in Hnil; rewrite Hnil. reflexivity.
+  - rewrite !rbind_ok. unfold set_doc1. cbn [it_norm1 it_doc1 it_all it_actual it_clean it_cs it_cur it_fr it_lr it_fn it_locs it_fields].
+    unfold finish. cbn [it_norm1 it_doc1 it_all it_actual it_clean it_cs it_cur it_fr it_lr it_fn it_locs it_fields].
+    rewrite Hnb'. cbn [negb].
+    rewrite wrap32_small by exact Hnb32.
+    cbn [map option_map].
+    change (spec_run _ ops) with (spec_run (@nil APosting) ops).
+    pose proof (spec_out_nil inclFN inclLocs ops) as Hnil; unfold spec_out in Hnil; rewrite Hnil.
+    cbn [deliver].
+    destruct inclFN; cbn [negb]; rewrite rbind_ok, run_finished_1hit by exact Hnb; rewrite rbind_ok;
+      destruct inclLocs; reflexivity.
+Qed.
+
+(* ================================================================== *)
+(* (C) the general encoding                                            *)
+(* ================================================================== *)
+
+Section Gen.
+  Variables (fields : list bytes) (ps : list EPosting) (cs : N) (total : nat) (inclLocs : bool).
+  Hypothesis Hwf : wf_postings (length fields) ps.
+  Hypothesis Hcs : 0 < cs.
+  Hypothesis Htot : forall p, In p ps -> (N.to_nat (ep_doc p / cs) < total)%nat.
+
+  Definition fch : list bytes := chunks_of freq_entry cs total ps.
+  Definition lch : option (list bytes) :=
+    if existsb ep_hasLocs ps then Some (chunks_of loc_entry cs total ps) else None.
+
+  Notation chk p := (ep_doc p / cs).
+  Notation CSf := (chunk_stream freq_entry cs).
+  Notation CSl := (chunk_stream loc_entry cs).
+  Notation mk a b cl cur fr lr := (mkIt 0 0 a b cl cs cur fr lr true inclLocs fields).
+
+  Definition DecOK (fr lr : Dec) : Prop :=
+    d_chunks fr = Some fch /\ (inclLocs = true -> d_chunks lr = lch).
+  Definition Rd (c : N) (suf : list EPosting) (fr lr : Dec) : Prop :=
+    DecOK fr lr /\ dec_isNil fr = false /\ d_r fr = CSf c suf /\ (inclLocs = true -> d_r lr = CSl c suf).
+  Definition Mid (c : N) (suf : list EPosting) (cur : N) (fr lr : Dec) : Prop :=
+    (cur = c /\ Rd c suf fr lr) \/
+    (DecOK fr lr /\ (cur <> c \/ dec_isNil fr = true) /\ CSf c ps = CSf c suf /\ CSl c ps = CSl c suf).
+  Definition Inv (suf : list EPosting) (cur : N) (fr lr : Dec) : Prop :=
+    forall p, In p suf -> Mid (chk p) suf cur fr lr.
+
+  Lemma wf_in (p : EPosting) : In p ps -> wf_posting (length fields) p.
+  Proof. destruct Hwf as [_ H]. rewrite Forall_forall in H. apply H. Qed.
+
+  Lemma mid_skip c p suf cur fr lr : Mid c (p :: suf) cur fr lr -> chk p <> c -> Mid c suf cur fr lr.
+  Proof.
+    intros [(Hc & Hd & Hn & Hf & Hl) | (Hd & Hc & Hf & Hl)] Hne.
+    - left. split; [exact Hc |]. split; [exact Hd |]. split; [exact Hn |].
+      rewrite CS_cons_out in Hf by exact Hne. split; [exact Hf |].
+      intros HL. rewrite (Hl HL). apply CS_cons_out. exact Hne.
+    - right. rewrite CS_cons_out in Hf, Hl by exact Hne.
+      split; [exact Hd |]. split; [exact Hc |]. split; assumption.
+  Qed.
+
+  Lemma no_locs_stream c suf : existsb ep_hasLocs ps = false -> (forall p, In p suf -> In p ps) -> CSl c suf = [].
+  Proof.
+    intros He Hsub. apply CS_all_empty. apply Forall_forall. intros p Hp.
+    apply loc_entry_hasnt.
+    destruct (ep_hasLocs p) eqn:E; [| reflexivity].
+    assert (existsb ep_hasLocs ps = true) by (apply existsb_exists; exists p; auto).
+    congruence.
+  Qed.
+
+  Lemma load_ok a b cl cur fr lr c suf :
+    DecOK fr lr -> (N.to_nat c < total)%nat ->
+    CSf c ps = CSf c suf -> CSl c ps = CSl c suf -> CSf c suf <> [] ->
+    exists fr' lr', it_loadChunk (mk a b cl cur fr lr) c = Ok (mk a b cl c fr' lr') /\ Rd c suf fr' lr'.
+  Proof.
+    intros [Hdf Hdl] Hc Hf Hl Hne.
+    unfold it_loadChunk. cbn [it_fn it_fr it_locs it_lr it_norm1 it_doc1 it_all it_actual it_clean it_cs it_fields].
+    unfold dec_load at 1. rewrite Hdf. unfold fch at 1. rewrite nthN_chunks by exact Hc. rewrite rbind_ok.
+    destruct inclLocs eqn:EL.
+    - unfold dec_load. rewrite (Hdl eq_refl). unfold lch at 1.
+      destruct (existsb ep_hasLocs ps) eqn:EX.
+      + rewrite nthN_chunks by exact Hc. rewrite rbind_ok.
+        eexists _, _. split; [reflexivity |].
+        unfold Rd, DecOK. cbn [d_chunks d_r d_cur]. rewrite EL.
+        repeat split.
+        * intros _. unfold lch. rewrite EX. reflexivity.
+        * unfold dec_isNil. cbn [d_cur]. rewrite Hf. destruct (CSf c suf); [congruence | reflexivity].
+        * exact Hf.
+        * intros _. exact Hl.
+      + rewrite rbind_ok. eexists _, _. split; [reflexivity |].
+        unfold Rd, DecOK. cbn [d_chunks d_r d_cur]. rewrite EL.
+        repeat split.
+        * intros _. unfold lch. rewrite EX. reflexivity.
+        * unfold dec_isNil. cbn [d_cur]. rewrite Hf. destruct (CSf c suf); [congruence | reflexivity].
+        * exact Hf.
+        * intros _. rewrite <- Hl. symmetry. apply no_locs_stream; auto.
+    - rewrite rbind_ok. eexists _, _. split; [reflexivity |].
+      unfold Rd, DecOK. cbn [d_chunks d_r d_cur]. rewrite EL.
+      repeat split; try discriminate.
+      + unfold dec_isNil. cbn [d_cur]. rewrite Hf. destruct (CSf c suf); [congruence | reflexivity].
+      + exact Hf.
+  Qed.
+
+  Lemma ensure_loaded a b cl cur fr lr c p suf :
+    Mid c (p :: suf) cur fr lr -> chk p = c -> In p ps ->
+    exists fr' lr',
+      (if need_load (mk a b cl cur fr lr) c then it_loadChunk (mk a b cl cur fr lr) c else Ok (mk a b cl cur fr lr))
+      = Ok (mk a b cl c fr' lr') /\ Rd c (p :: suf) fr' lr'.
+  Proof.
+    intros [(Hc & HR) | (Hd & Hc & Hf & Hl)] Hp Hin.
+    - exists fr, lr. subst cur. split; [| exact HR].
+      unfold need_load. cbn [it_cur it_fr]. rewrite N.eqb_refl.
+      destruct HR as (_ & Hn & _). rewrite Hn. reflexivity.
+    - assert (E : need_load (mk a b cl cur fr lr) c = true).
+      { unfold need_load. cbn [it_cur it_fr]. destruct Hc as [Hc | Hc].
+        - apply N.eqb_neq in Hc. rewrite Hc. reflexivity.
+        - rewrite Hc. apply orb_true_r. }
+      rewrite E. apply load_ok; try assumption.
+      + subst c. apply Htot. exact Hin.
+      + rewrite CS_cons_in by exact Hp. apply freq_entry_nonempty.
+  Qed.
+
+  Lemma skip_entry a b cl c p suf fr lr :
+    Rd c (p :: suf) fr lr -> chk p = c -> wf_posting (length fields) p ->
+    exists fr' lr', ccn_tail (mk a b cl c fr lr) = Ok (mk a b cl c fr' lr') /\ Rd c suf fr' lr'.
+  Proof.
+    intros ((Hdf & Hdl) & Hn & Hf & Hl) Hp (Hdoc & Hfreq & Hnorm & Hlen & Hlocs & Hsum).
+    destruct fr as [fc fcu fr0]. destruct lr as [lc lcu lr0].
+    cbn [d_chunks d_r d_cur] in *. unfold dec_isNil in Hn. cbn [d_cur] in Hn.
+    rewrite CS_cons_in in Hf by exact Hp. unfold freq_entry in Hf. rewrite <- app_assoc in Hf. subst fr0.
+    unfold ccn_tail. cbn [it_fr].
+    pose proof two32_lt_two64 as H3264.
+    rewrite read_uv_put by (apply enc_fhl_lt; exact Hfreq). rewrite rbind_ok.
+    rewrite skip_uv_put by lia. rewrite rbind_ok.
+    cbv zeta. unfold set_fr.
+    cbn [it_fr it_lr it_locs it_norm1 it_doc1 it_all it_actual it_clean it_cs it_cur it_fn it_fields].
+    rewrite enc_fhl_odd by exact Hfreq.
+    destruct (ep_hasLocs p) eqn:EH.
+    - rewrite andb_true_r. destruct inclLocs eqn:EL.
+      + specialize (Hl eq_refl). rewrite CS_cons_in in Hl by exact Hp.
+        rewrite loc_entry_has in Hl by exact EH. rewrite <- app_assoc in Hl. subst lr0.
+        rewrite read_uv_put by exact Hsum. rewrite rbind_ok.
+        unfold set_lr, dec_skip_bytes, skip_bytes.
+        cbn [it_fr it_lr it_locs it_norm1 it_doc1 it_all it_actual it_clean it_cs it_cur it_fn it_fields d_chunks d_cur d_r].
+        rewrite skipn_exact by (eapply locs_bytes_len; exact Hlocs).
+        eexists _, _. split; [reflexivity |].
+        unfold Rd, DecOK, dec_isNil. cbn [d_chunks d_r d_cur]. rewrite EL. repeat split; auto.
+      + eexists _, _. split; [reflexivity |].
+        unfold Rd, DecOK, dec_isNil. cbn [d_chunks d_r d_cur]. rewrite EL. repeat split; auto; discriminate.
+    - rewrite andb_false_r.
+      eexists _, _. split; [reflexivity |].
+      unfold Rd, DecOK, dec_isNil. cbn [d_chunks d_r d_cur]. repeat split; auto.
+      intros HL. rewrite (Hl HL). rewrite CS_cons_in by exact Hp.
+      destruct (loc_entry_hasnt p EH) as [E _]. rewrite E. reflexivity.
+  Qed.
+
+  Lemma ccn_ok a b cl cur fr lr c p suf :
+    Mid c (p :: suf) cur fr lr -> chk p = c -> In p ps ->
+    exists fr' lr', currChunkNext (mk a b cl cur fr lr) c = Ok (mk a b cl c fr' lr') /\ Rd c suf fr' lr'.
+  Proof.
+    intros HM Hp Hin. rewrite ccn_unfold.
+    destruct (ensure_loaded a b cl cur fr lr c p suf HM Hp Hin) as (fr1 & lr1 & E & HR).
+    rewrite E, rbind_ok. apply (skip_entry a b cl c p suf fr1 lr1 HR Hp). apply wf_in. exact Hin.
+  Qed.
+
+  Lemma read_posting a b cl c p suf fr lr :
+    Rd c (p :: suf) fr lr -> chk p = c -> wf_posting (length fields) p ->
+    exists fr' lr', finish (mk a b cl c fr lr) (ep_doc p)
+                    = Ok (mk a b cl c fr' lr', Some (deliver true inclLocs (resolve_posting fields p)))
+                    /\ Rd c suf fr' lr'.
+  Proof.
+    intros ((Hdf & Hdl) & Hn & Hf & Hl) Hp (Hdoc & Hfreq & Hnorm & Hlen & Hlocs & Hsum).
+    destruct fr as [fc fcu fr0]. destruct lr as [lc lcu lr0].
+    cbn [d_chunks d_r d_cur] in *. unfold dec_isNil in Hn. cbn [d_cur] in Hn.
+    rewrite CS_cons_in in Hf by exact Hp. unfold freq_entry in Hf. rewrite <- app_assoc in Hf. subst fr0.
+    unfold finish. cbn [it_fr it_fn it_norm1 negb]. change (0 =? 0) with true. cbn [negb].
+    pose proof two32_lt_two64 as H3264.
+    rewrite read_uv_put by (apply enc_fhl_lt; exact Hfreq). rewrite rbind_ok.
+    rewrite read_uv_put by lia. rewrite rbind_ok.
+    cbv zeta. unfold set_fr.
+    cbn [it_fr it_lr it_locs it_norm1 it_doc1 it_all it_actual it_clean it_cs it_cur it_fn it_fields].
+    rewrite enc_fhl_odd by exact Hfreq. rewrite enc_fhl_shiftr by exact Hfreq.
+    rewrite wrap32_small by exact Hnorm.
+    unfold resolve_posting, deliver.
+    destruct (ep_hasLocs p) eqn:EH.
+    - rewrite andb_true_r. destruct inclLocs eqn:EL.
+      + specialize (Hl eq_refl). rewrite CS_cons_in in Hl by exact Hp.
+        rewrite loc_entry_has in Hl by exact EH. rewrite <- app_assoc in Hl. subst lr0.
+        rewrite read_uv_put by exact Hsum. rewrite rbind_ok.
+        rewrite (read_locs_ok fields lc lcu (CSl c suf) (ep_locs p) (N.to_nat (ep_freq p)) 0); try assumption.
+        * rewrite rbind_ok. unfold set_lr.
+          cbn [it_fr it_lr it_locs it_norm1 it_doc1 it_all it_actual it_clean it_cs it_cur it_fn it_fields].
+          eexists _, _. split; [reflexivity |].
+          unfold Rd, DecOK, dec_isNil. cbn [d_chunks d_r d_cur]. rewrite EL. repeat split; auto.
+        * unfold dec_len. cbn [d_r]. lia.
+        * rewrite (locs_bytes_len _ _ Hlocs). lia.
+      + eexists _, _. split; [reflexivity |].
+        unfold Rd, DecOK, dec_isNil. cbn [d_chunks d_r d_cur]. rewrite EL. repeat split; auto; discriminate.
+    - rewrite andb_false_r. destruct (loc_entry_hasnt p EH) as [E1 E2]. rewrite E2. cbn [map].
+      eexists _, _. split; [destruct inclLocs; reflexivity |].
+      unfold Rd, DecOK, dec_isNil. cbn [d_chunks d_r d_cur]. repeat split; auto.
+      intros HL. rewrite (Hl HL). rewrite CS_cons_in by exact Hp. rewrite E1. reflexivity.
+  Qed.
+
+  (* ---- pure list facts: targets of Advance ---- *)
+  Definition lpP (lp : N -> bool) (d : N) (q : EPosting) : Prop := lp (ep_doc q) = false \/ ep_doc q < d.
+  Notation stf lp suf := (filter (fun p : APosting => lp (fst p)) (map (resolve_posting fields) suf)).
+
+  Lemma spec_hit lp d p' suf' : forall sk,
+    Forall (lpP lp d) sk -> lp (ep_doc p') = true -> d <= ep_doc p' ->
+    spec_step (stf lp (sk ++ p' :: suf')) (IAdvance d) = (stf lp suf', Some (resolve_posting fields p')).
+  Proof.
+    intros sk Hsk Hlp Hd. induction Hsk as [| q sk Hq Hsk IH].
+    - cbn [app map filter]. change (fst (resolve_posting fields p')) with (ep_doc p'). rewrite Hlp.
+      unfold spec_step. cbn [drop_below]. change (fst (resolve_posting fields p')) with (ep_doc p').
+      replace (ep_doc p' <? d) with false by lia. reflexivity.
+    - cbn [app map filter]. change (fst (resolve_posting fields q)) with (ep_doc q).
+      destruct (lp (ep_doc q)) eqn:E; [| exact IH].
+      destruct Hq as [Hq | Hq]; [congruence |].
+      rewrite <- IH. unfold spec_step. cbn [drop_below].
+      change (fst (resolve_posting fields q)) with (ep_doc q).
+      replace (ep_doc q <? d) with true by lia. reflexivity.
+  Qed.
+
+  Lemma spec_miss lp d : forall suf,
+    Forall (lpP lp d) suf -> spec_step (stf lp suf) (IAdvance d) = ([], None).
+  Proof.
+    intros suf Hsuf. induction Hsuf as [| q sk Hq Hsk IH]; [reflexivity |].
+    cbn [app map filter]. change (fst (resolve_posting fields q)) with (ep_doc q).
+    destruct (lp (ep_doc q)) eqn:E; [| exact IH].
+    destruct Hq as [Hq | Hq]; [congruence |].
+    rewrite <- IH. unfold spec_step. cbn [drop_below].
+    change (fst (resolve_posting fields q)) with (ep_doc q).
+    replace (ep_doc q <? d) with true by lia. reflexivity.
+  Qed.
+
+  Lemma drop_lt_decomp lp d : forall suf,
+    (Forall (lpP lp d) suf /\ drop_lt d (filter lp (map ep_doc suf)) = [])
+    \/ (exists sk p' suf', suf = sk ++ p' :: suf' /\ Forall (lpP lp d) sk /\ lp (ep_doc p') = true /\
+                            d <= ep_doc p' /\
+                            drop_lt d (filter lp (map ep_doc suf)) = ep_doc p' :: filter lp (map ep_doc suf')).
+  Proof.
+    induction suf as [| q suf IH].
+    - left. split; [constructor | reflexivity].
+    - cbn [map filter]. destruct (lp (ep_doc q)) eqn:E.
+      + cbn [drop_lt]. destruct (ep_doc q <? d) eqn:E2.
+        * destruct IH as [[H1 H2] | (sk & p' & suf' & H1 & H2 & H3 & H4 & H5)].
+          -- left. split; [constructor; [right; lia | exact H1] | exact H2].
+          -- right. exists (q :: sk), p', suf'. subst suf. split; [reflexivity |].
+             split; [constructor; [right; lia | exact H2] |]. auto.
+        * right. exists [], q, suf. split; [reflexivity |]. split; [constructor |].
+          split; [exact E |]. split; [lia | reflexivity].
+      + destruct IH as [[H1 H2] | (sk & p' & suf' & H1 & H2 & H3 & H4 & H5)].
+        * left. split; [constructor; [left; exact E | exact H1] | exact H2].
+        * right. exists (q :: sk), p', suf'. subst suf. split; [reflexivity |].
+          split; [constructor; [left; exact E | exact H2] |]. auto.
+  Qed.
+
+  Lemma chk_mono (a b : N) : a <= b -> a / cs <= b / cs.
+  Proof. intros H. apply N.div_le_mono; lia. Qed.
+
+  Lemma clean_scan_spec d : forall rest_ps p skipped n nChunk same rest,
+    StronglySorted (fun a b => ep_doc a < ep_doc b) (p :: rest_ps) ->
+    Forall (fun q => chk q = chk p) skipped -> Forall (fun q => ep_doc q < d) skipped ->
+    clean_scan cs d (ep_doc p) (chk p) (length skipped) (map ep_doc rest_ps) = (n, nChunk, same, rest) ->
+    exists mid skipped' p' rest_ps',
+      skipped ++ p :: rest_ps = mid ++ skipped' ++ p' :: rest_ps' /\ n = ep_doc p' /\ nChunk = chk p' /\
+      same = length skipped' /\ rest = map ep_doc rest_ps' /\
+      Forall (fun q => chk q = nChunk) skipped' /\ Forall (fun q => chk q <> nChunk) mid /\
+      Forall (fun q => ep_doc q < d) (mid ++ skipped') /\ (ep_doc p' < d -> rest_ps' = []).
+  Proof.
+    induction rest_ps as [| q rest_ps IH]; intros p skipped n nChunk same rest Hs Hc Hd H.
+    - cbn [map clean_scan] in H. inversion H; subst.
+      exists [], skipped, p, []. cbn [app]. repeat split; auto.
+    - cbn [map clean_scan] in H.
+      inversion Hs as [| ? ? Hs' Hf]; subst. rewrite Forall_forall in Hf.
+      destruct (ep_doc p <? d) eqn:E.
+      + destruct (chk q =? chk p) eqn:EC.
+        * apply N.eqb_eq in EC.
+          replace (S (length skipped)) with (length (skipped ++ [p])) in H
+            by (rewrite app_length; cbn [length]; lia).
+          apply IH in H.
+          -- destruct H as (mid & sk' & p' & rest' & H1 & H2).
+             exists mid, sk', p', rest'. split; [| exact H2].
+             rewrite <- H1, <- app_assoc. reflexivity.
+          -- exact Hs'.
+          -- apply Forall_app. split; [| constructor; [auto | constructor]].
+             eapply Forall_impl; [| exact Hc]. cbv beta. intros x Hx. congruence.
+          -- apply Forall_app. split; [exact Hd | constructor; [lia | constructor]].
+        * apply N.eqb_neq in EC.
+          change O with (length (@nil EPosting)) in H.
+          apply IH in H; [| exact Hs' | constructor | constructor].
+          destruct H as (mid & sk' & p' & rest' & H1 & H2 & H3 & H4 & H5 & H6 & H7 & H8 & H9).
+          cbn [app] in H1.
+          exists (skipped ++ p :: mid), sk', p', rest'.
+          split; [rewrite <- app_assoc; cbn [app]; rewrite <- H1; reflexivity |].
+          do 5 (split; [assumption |]).
+          assert (Hin : In p' (q :: rest_ps)).
+          { rewrite H1. apply in_or_app. right. apply in_or_app. right. left. reflexivity. }
+          assert (Hqp : chk q <= chk p').
+          { destruct Hin as [<- | Hin]; [lia |]. apply chk_mono.
+            inversion Hs' as [| ? ? _ Hf']; subst. rewrite Forall_forall in Hf'.
+            specialize (Hf' _ Hin). lia. }
+          assert (Hpq : chk p <= chk q).
+          { apply chk_mono. specialize (Hf q (or_introl eq_refl)). lia. }
+          split; [| split; [| exact H9]].
+          -- apply Forall_app. split.
+             ++ eapply Forall_impl; [| exact Hc]. cbv beta. intros x Hx. lia.
+             ++ constructor; [lia | subst nChunk; exact H7].
+          -- rewrite <- app_assoc. cbn [app]. apply Forall_app. split; [exact Hd |].
+             constructor; [lia | exact H8].
+      + inversion H; subst.
+        exists [], skipped, p, (q :: rest_ps). cbn [app]. repeat split; auto. lia.
+  Qed.
+
+  Lemma mid_skip_many c : forall m s cur fr lr,
+    Forall (fun q => chk q <> c) m -> Mid c (m ++ s) cur fr lr -> Mid c s cur fr lr.
+  Proof.
+    induction m as [| q m IH]; intros s cur fr lr Hm HM; [exact HM |].
+    inversion Hm; subst. apply IH; [assumption |]. eapply mid_skip; eassumption.
+  Qed.
+
+  Lemma repeat_ccn_ok a b cl c : forall sk s cur fr lr,
+    Forall (fun q => chk q = c) sk -> (forall q, In q sk -> In q ps) ->
+    Mid c (sk ++ s) cur fr lr ->
+    exists cur' fr' lr', repeat_ccn (length sk) (mk a b cl cur fr lr) c = Ok (mk a b cl cur' fr' lr')
+                         /\ Mid c s cur' fr' lr'.
+  Proof.
+    induction sk as [| q sk IH]; intros s cur fr lr Hc Hin HM.
+    - exists cur, fr, lr. split; [reflexivity | exact HM].
+    - inversion Hc; subst. cbn [length repeat_ccn app] in *.
+      destruct (ccn_ok a b cl cur fr lr (chk q) q (sk ++ s) HM eq_refl (Hin q (or_introl eq_refl)))
+        as (fr1 & lr1 & E & HR).
+      rewrite E, rbind_ok.
+      apply IH; [assumption | intros x Hx; apply Hin; right; exact Hx |].
+      left. split; [reflexivity | exact HR].
+  Qed.
+
+  Lemma inv_after pre p' suf' fr lr :
+    ps = pre ++ p' :: suf' -> Rd (chk p') suf' fr lr -> Inv suf' (chk p') fr lr.
+  Proof.
+    intros Hps HR q Hq.
+    destruct (N.eq_dec (chk q) (chk p')) as [e | ne].
+    - left. rewrite e. split; [reflexivity | exact HR].
+    - right. destruct HR as (Hd & _). split; [exact Hd |]. split; [left; congruence |].
+      destruct Hwf as [Hsort _]. rewrite Hps in Hsort.
+      destruct (sorted_app_inv _ _ _ Hsort) as [Hs2 Hlt].
+      inversion Hs2 as [| ? ? _ Hf]; subst. rewrite Forall_forall in Hf.
+      assert (Hpq : chk p' <= chk q) by (apply chk_mono; specialize (Hf _ Hq); lia).
+      assert (Hpre : Forall (fun x => chk x <> chk q) (pre ++ [p'])).
+      { apply Forall_app. split; [| constructor; [lia | constructor]].
+        apply Forall_forall. intros x Hx.
+        assert (chk x <= chk p') by (apply chk_mono; specialize (Hlt x p' Hx (or_introl eq_refl)); lia).
+        lia. }
+      replace (pre ++ p' :: suf') with ((pre ++ [p']) ++ suf') in Hps
+        by (rewrite <- app_assoc; reflexivity).
+      rewrite Hps, (CS_app freq_entry), (CS_app loc_entry).
+      rewrite (CS_other freq_entry _ _ _ Hpre), (CS_other loc_entry _ _ _ Hpre). split; reflexivity.
+  Qed.
+
+  Lemma decomp_facts pre sk p' suf' :
+    ps = pre ++ sk ++ p' :: suf' ->
+    In p' ps /\ (forall q, In q sk -> In q ps /\ ep_doc q < ep_doc p') /\ ps = (pre ++ sk) ++ p' :: suf'.
+  Proof.
+    intros Hps. rewrite app_assoc in Hps.
+    split; [rewrite Hps; apply in_or_app; right; left; reflexivity |].
+    split; [| exact Hps].
+    intros q Hq. split.
+    - rewrite Hps. apply in_or_app. left. apply in_or_app. right. exact Hq.
+    - destruct Hwf as [Hsort _]. rewrite Hps in Hsort.
+      destruct (sorted_app_inv _ _ _ Hsort) as [_ Hlt].
+      apply Hlt; [apply in_or_app; right; exact Hq | left; reflexivity].
+  Qed.
+
+  Lemma sync_ok a b cl p' suf' : ep_doc p' < two32 ->
+    forall sk cur fr lr,
+    (forall q, In q sk -> In q ps /\ ep_doc q < ep_doc p') ->
+    Mid (chk p') (sk ++ p' :: suf') cur fr lr ->
+    exists cur' fr' lr',
+      sync_all (mk a b cl cur fr lr) (ep_doc p') (chk p') (wrap32 (chk p' * cs)) (map ep_doc (sk ++ p' :: suf'))
+      = Ok (mk a b cl cur' fr' lr', map ep_doc suf') /\ Mid (chk p') (p' :: suf') cur' fr' lr'.
+  Proof.
+    intros H32.
+    assert (Hreach : wrap32 (chk p' * cs) = chk p' * cs).
+    { apply wrap32_small. pose proof (N.mul_div_le (ep_doc p') cs). lia. }
+    rewrite Hreach.
+    induction sk as [| q sk IH]; intros cur fr lr Hsk HM.
+    - cbn [app map sync_all]. rewrite N.eqb_refl. exists cur, fr, lr. split; [reflexivity | exact HM].
+    - cbn [app map sync_all]. destruct (Hsk q (or_introl eq_refl)) as [Hin Hlt].
+      replace (ep_doc q =? ep_doc p') with false by lia.
+      cbn [it_fn andb].
+      assert (Hsk' : forall x, In x sk -> In x ps /\ ep_doc x < ep_doc p')
+        by (intros x Hx; apply Hsk; right; exact Hx).
+      destruct (chk p' * cs <=? ep_doc q) eqn:E.
+      + assert (Hc : chk q = chk p').
+        { apply N.leb_le in E.
+          assert (chk p' <= chk q) by (apply N.div_le_lower_bound; lia).
+          assert (chk q <= chk p') by (apply chk_mono; lia). lia. }
+        cbn [app] in HM.
+        destruct (ccn_ok a b cl cur fr lr (chk p') q (sk ++ p' :: suf') HM Hc Hin) as (fr1 & lr1 & E1 & HR).
+        rewrite E1, rbind_ok. apply IH; [exact Hsk' |].
+        left. split; [reflexivity | exact HR].
+      + rewrite rbind_ok. apply IH; [exact Hsk' |].
+        cbn [app] in HM. eapply mid_skip; [exact HM |].
+        apply N.leb_gt in E.
+        assert (chk q < chk p') by (apply N.div_lt_upper_bound; lia). lia.
+  Qed.
+
+  Lemma nd_excl lp d pre suf cur fr lr :
+    d < two32 -> ps = pre ++ suf -> Inv suf cur fr lr ->
+    (Forall (lpP lp d) suf /\
+     exists al', next_docnum (mk (map ep_doc suf) (filter lp (map ep_doc suf)) false cur fr lr) d
+                 = Ok (mk al' [] false cur fr lr, None))
+    \/ exists sk p' suf' fr' lr',
+         suf = sk ++ p' :: suf' /\ Forall (lpP lp d) sk /\ lp (ep_doc p') = true /\ d <= ep_doc p' /\
+         next_docnum (mk (map ep_doc suf) (filter lp (map ep_doc suf)) false cur fr lr) d
+         = Ok (mk (map ep_doc suf') (filter lp (map ep_doc suf')) false (chk p') fr' lr', Some (ep_doc p')) /\
+         Rd (chk p') (p' :: suf') fr' lr'.
+  Proof.
+    intros Hd Hps HI.
+    unfold next_docnum.
+    cbn [it_norm1 it_doc1 it_all it_actual it_clean it_cs it_cur it_fr it_lr it_fn it_locs it_fields].
+    change (0 =? 0) with true. cbn [negb]. rewrite (wrap32_small d Hd).
+    replace (cs =? 0) with false by lia.
+    destruct (drop_lt_decomp lp d suf) as [[HF HD] | (sk & p' & suf' & Hsuf & HF & Hlp & Hd' & HD)].
+    - left. split; [exact HF |].
+      destruct (filter lp (map ep_doc suf)) as [| n0 rest0].
+      + eexists. reflexivity.
+      + rewrite HD. unfold set_cursors.
+        cbn [it_norm1 it_doc1 it_all it_actual it_clean it_cs it_cur it_fr it_lr it_fn it_locs it_fields].
+        eexists. reflexivity.
+    - right. exists sk, p', suf'.
+      destruct (filter lp (map ep_doc suf)) as [| n0 rest0] eqn:Eac; [discriminate HD |].
+      rewrite HD. subst suf.
+      destruct (decomp_facts _ _ _ _ Hps) as (Hin & Hsk & Hps').
+      assert (HM : Mid (chk p') (sk ++ p' :: suf') cur fr lr)
+        by (apply HI; apply in_or_app; right; left; reflexivity).
+      pose proof (wf_in p' Hin) as Hwfp.
+      assert (H32 : ep_doc p' < two32) by (destruct Hwfp as (H & _); exact H).
+      destruct (sync_ok (map ep_doc (sk ++ p' :: suf')) (n0 :: rest0) false p' suf' H32 sk cur fr lr Hsk HM)
+        as (cur1 & fr1 & lr1 & E1 & HM1).
+      rewrite E1, rbind_ok. cbv beta iota. unfold set_cursors.
+      cbn [it_norm1 it_doc1 it_all it_actual it_clean it_cs it_cur it_fr it_lr it_fn it_locs it_fields andb].
+      destruct (ensure_loaded (map ep_doc suf') (filter lp (map ep_doc suf')) false cur1 fr1 lr1
+                              (chk p') p' suf' HM1 eq_refl Hin) as (fr2 & lr2 & E2 & HR).
+      rewrite E2, rbind_ok.
+      exists fr2, lr2. do 4 (split; [auto |]). split; [reflexivity | exact HR].
+  Qed.
+
+  Lemma nd_clean d pre suf al cur fr lr :
+    ps = pre ++ suf -> Inv suf cur fr lr ->
+    (Forall (fun q => ep_doc q < d) suf /\
+     exists al', next_docnum (mk al (map ep_doc suf) true cur fr lr) d = Ok (mk al' [] true cur fr lr, None))
+    \/ exists sk p' suf' fr' lr',
+         suf = sk ++ p' :: suf' /\ Forall (fun q => ep_doc q < d) sk /\ d <= ep_doc p' /\
+         next_docnum (mk al (map ep_doc suf) true cur fr lr) d
+         = Ok (mk (map ep_doc suf') (map ep_doc suf') true (chk p') fr' lr', Some (ep_doc p')) /\
+         Rd (chk p') (p' :: suf') fr' lr'.
+  Proof.
+    intros Hps HI.
+    destruct suf as [| p0 rest_ps].
+    { left. split; [constructor |]. exists al. reflexivity. }
+    unfold next_docnum.
+    cbn [map it_norm1 it_doc1 it_all it_actual it_clean it_cs it_cur it_fr it_lr it_fn it_locs it_fields].
+    change (0 =? 0) with true. cbn [negb].
+    replace (cs =? 0) with false by lia.
+    destruct (clean_scan cs d (ep_doc p0) (chk p0) 0 (map ep_doc rest_ps)) as [[[n nChunk] same] rest] eqn:ES.
+    assert (Hsort : StronglySorted (fun a b => ep_doc a < ep_doc b) (p0 :: rest_ps)).
+    { destruct Hwf as [Hsort _]. rewrite Hps in Hsort. apply (sorted_app_inv _ _ _ Hsort). }
+    apply (clean_scan_spec d rest_ps p0 [] n nChunk same rest Hsort (Forall_nil _) (Forall_nil _)) in ES.
+    destruct ES as (mid & sk' & p' & rest' & H1 & H2 & H3 & H4 & H5 & H6 & H7 & H8 & H9).
+    cbn [app] in H1. subst n nChunk same rest.
+    unfold set_cursors.
+    cbn [it_norm1 it_doc1 it_all it_actual it_clean it_cs it_cur it_fr it_lr it_fn it_locs it_fields].
+    destruct (ep_doc p' <? d) eqn:E.
+    - left. assert (Hr : rest' = []) by (apply H9; lia). subst rest'. split.
+      + rewrite H1, app_assoc. apply Forall_app. split; [exact H8 | constructor; [lia | constructor]].
+      + eexists. reflexivity.
+    - right.
+      assert (H1' : p0 :: rest_ps = (mid ++ sk') ++ p' :: rest') by (rewrite <- app_assoc; exact H1).
+      rewrite H1 in Hps, HI.
+      rewrite (app_assoc mid) in Hps.
+      destruct (decomp_facts _ _ _ _ Hps) as (Hin & Hsk & Hps').
+      assert (HM : Mid (chk p') (mid ++ sk' ++ p' :: rest') cur fr lr)
+        by (apply HI; apply in_or_app; right; apply in_or_app; right; left; reflexivity).
+      apply mid_skip_many in HM; [| exact H7].
+      destruct (repeat_ccn_ok (map ep_doc rest') (map ep_doc rest') true (chk p') sk' (p' :: rest') cur fr lr H6)
+        as (cur1 & fr1 & lr1 & E1 & HM1); [| exact HM |].
+      { intros q Hq. apply Hsk. apply in_or_app. right. exact Hq. }
+      rewrite E1, rbind_ok.
+      destruct (ensure_loaded (map ep_doc rest') (map ep_doc rest') true cur1 fr1 lr1
+                              (chk p') p' rest' HM1 eq_refl Hin) as (fr2 & lr2 & E2 & HR).
+      rewrite E2, rbind_ok.
+      exists (mid ++ sk'), p', rest', fr2, lr2.
+      split; [exact H1' |]. split; [exact H8 |]. split; [lia |]. split; [reflexivity | exact HR].
+  Qed.
+
+  (* ---- cursor invariant, both modes ---- *)
+  Definition Cur (mode : option (N -> bool)) (suf : list EPosting) (al ac : list N) (cl : bool) : Prop :=
+    match mode with
+    | None => cl = true /\ ac = map ep_doc suf
+    | Some lp => cl = false /\ al = map ep_doc suf /\ ac = filter lp (map ep_doc suf)
+    end.
+  Definition lp_of (mode : option (N -> bool)) : N -> bool :=
+    match mode with None => fun _ => true | Some lp => lp end.
+
+  Lemma nd_any mode d pre suf al ac cl cur fr lr :
+    d < two32 -> ps = pre ++ suf -> Inv suf cur fr lr -> Cur mode suf al ac cl ->
+    (Forall (lpP (lp_of mode) d) suf /\
+     exists al', next_docnum (mk al ac cl cur fr lr) d = Ok (mk al' [] cl cur fr lr, None))
+    \/ exists sk p' suf' fr' lr' al' ac',
+         suf = sk ++ p' :: suf' /\ Forall (lpP (lp_of mode) d) sk /\ lp_of mode (ep_doc p') = true /\
+         d <= ep_doc p' /\
+         next_docnum (mk al ac cl cur fr lr) d = Ok (mk al' ac' cl (chk p') fr' lr', Some (ep_doc p')) /\
+         Rd (chk p') (p' :: suf') fr' lr' /\ Cur mode suf' al' ac' cl.
+  Proof.
+    intros Hd Hps HI HC. destruct mode as [lp |]; cbn [Cur lp_of] in *.
+    - destruct HC as (-> & -> & ->).
+      destruct (nd_excl lp d pre suf cur fr lr Hd Hps HI)
+        as [[HF HE] | (sk & p' & suf' & fr' & lr' & H1 & H2 & H3 & H4 & H5 & H6)].
+      + left. split; assumption.
+      + right. exists sk, p', suf', fr', lr', (map ep_doc suf'), (filter lp (map ep_doc suf')).
+        repeat (split; [assumption |]). repeat split; reflexivity.
+    - destruct HC as (-> & ->).
+      destruct (nd_clean d pre suf al cur fr lr Hps HI)
+        as [[HF HE] | (sk & p' & suf' & fr' & lr' & H1 & H2 & H4 & H5 & H6)].
+      + left. split; [| exact HE]. eapply Forall_impl; [| exact HF]. intros q Hq. right. exact Hq.
+      + right. exists sk, p', suf', fr', lr', (map ep_doc suf'), (map ep_doc suf').
+        split; [exact H1 |]. split; [eapply Forall_impl; [| exact H2]; intros q Hq; right; exact Hq |].
+        split; [reflexivity |]. repeat (split; [assumption |]). split; reflexivity.
+  Qed.
+
+  Lemma run_exhausted d1 al cl c0 cur fr lr fn lo fl (ops : list iter_op) :
+    it_run (mkIt 0 d1 al [] cl c0 cur fr lr fn lo fl) ops = Ok (map (fun _ => None) ops).
+  Proof.
+    induction ops as [| op ops IH]; [reflexivity |].
+    cbn [it_run]. rewrite it_step_d_of, naa_unfold. unfold next_docnum.
+    cbn [it_norm1 it_actual]. change (0 =? 0) with true. cbn [negb].
+    rewrite ?rbind_ok. cbv beta iota. rewrite ?rbind_ok. cbv beta iota. rewrite IH. reflexivity.
+  Qed.
+
+  Lemma wf_ops_d (op : iter_op) (ops : list iter_op) : wf_ops (op :: ops) -> d_of op < two32 /\ wf_ops ops.
+  Proof.
+    intros H. inversion H as [| ? ? H1 H2]; subst. split; [| exact H2].
+    destruct op; [reflexivity | exact H1].
+  Qed.
+
+  Lemma run_ok mode : forall ops pre suf al ac cl cur fr lr,
+    wf_ops ops -> ps = pre ++ suf -> Inv suf cur fr lr -> Cur mode suf al ac cl ->
+    it_run (mk al ac cl cur fr lr) ops = Ok (spec_out true inclLocs (stf (lp_of mode) suf) ops).
+  Proof.
+    induction ops as [| op ops IH]; intros pre suf al ac cl cur fr lr Hops Hps HI HC; [reflexivity |].
+    destruct (wf_ops_d _ _ Hops) as [Hd Hops'].
+    cbn [it_run]. rewrite it_step_d_of, naa_unfold.
+    unfold spec_out. cbn [spec_run]. rewrite spec_step_d_of.
+    destruct (nd_any mode (d_of op) pre suf al ac cl cur fr lr Hd Hps HI HC)
+      as [[HF (al' & E)] | (sk & p' & suf' & fr' & lr' & al' & ac' & H1 & H2 & H3 & H4 & E & HR & HC')].
+    - rewrite E, rbind_ok. cbv beta iota. rewrite rbind_ok. cbv beta iota.
+      rewrite run_exhausted, rbind_ok.
+      rewrite (spec_miss (lp_of mode) (d_of op) suf HF).
+      cbn [map option_map].
+      pose proof (spec_out_nil true inclLocs ops) as Hnil. unfold spec_out in Hnil. rewrite Hnil.
+      reflexivity.
+    - rewrite E, rbind_ok. cbv beta iota.
+      subst suf. destruct (decomp_facts _ _ _ _ Hps) as (Hin & Hsk & Hps').
+      destruct (read_posting al' ac' cl (chk p') p' suf' fr' lr' HR eq_refl (wf_in p' Hin))
+        as (fr2 & lr2 & E2 & HR2).
+      rewrite E2, rbind_ok. cbv beta iota.
+      rewrite (spec_hit (lp_of mode) (d_of op) p' suf' sk H2 H3 H4).
+      rewrite (IH (pre ++ sk ++ [p']) suf' al' ac' cl (chk p') fr2 lr2 Hops').
+      + rewrite rbind_ok. reflexivity.
+      + rewrite Hps'. rewrite <- !app_assoc. reflexivity.
+      + eapply inv_after; [exact Hps' | exact HR2].
+      + exact HC'.
+  Qed.
+
+  Lemma inv_init cur fr lr : DecOK fr lr -> dec_isNil fr = true -> Inv ps cur fr lr.
+  Proof.
+    intros Hd Hn p Hp. right. split; [exact Hd |]. split; [right; exact Hn |]. split; reflexivity.
+  Qed.
+
+  (* ---- includeFreqNorm = false: only the cursors move ---- *)
+  Notation mkn a b cl cur fr lr := (mkIt 0 0 a b cl cs cur fr lr false inclLocs fields).
+
+  Lemma sync_nf al ac cl cur fr lr n c reach rest : forall sk,
+    Forall (fun a => a <> n) sk ->
+    sync_all (mkn al ac cl cur fr lr) n c reach (sk ++ n :: rest) = Ok (mkn al ac cl cur fr lr, rest).
+  Proof.
+    induction sk as [| a sk IH]; intros Hsk; cbn [app sync_all].
+    - rewrite N.eqb_refl. reflexivity.
+    - inversion Hsk as [| ? ? Ha Hsk']; subst.
+      apply N.eqb_neq in Ha. rewrite Ha. cbn [it_fn andb]. rewrite rbind_ok. apply IH. exact Hsk'.
+  Qed.
+
+  Lemma nd_any_nf mode d pre suf al ac cl cur fr lr :
+    d < two32 -> ps = pre ++ suf -> Cur mode suf al ac cl ->
+    (Forall (lpP (lp_of mode) d) suf /\
+     exists al', next_docnum (mkn al ac cl cur fr lr) d = Ok (mkn al' [] cl cur fr lr, None))
+    \/ exists sk p' suf' al' ac',
+         suf = sk ++ p' :: suf' /\ Forall (lpP (lp_of mode) d) sk /\ lp_of mode (ep_doc p') = true /\
+         d <= ep_doc p' /\
+         next_docnum (mkn al ac cl cur fr lr) d = Ok (mkn al' ac' cl cur fr lr, Some (ep_doc p')) /\
+         Cur mode suf' al' ac' cl.
+  Proof.
+    intros Hd Hps HC. unfold next_docnum.
+    cbn [it_norm1 it_doc1 it_all it_actual it_clean it_cs it_cur it_fr it_lr it_fn it_locs it_fields].
+    change (0 =? 0) with true. cbn [negb]. rewrite (wrap32_small d Hd).
+    replace (cs =? 0) with false by lia.
+    destruct mode as [lp |]; cbn [Cur lp_of] in *.
+    - destruct HC as (-> & -> & ->).
+      destruct (drop_lt_decomp lp d suf) as [[HF HD] | (sk & p' & suf' & Hsuf & HF & Hlp & Hd' & HD)].
+      + left. split; [exact HF |].
+        destruct (filter lp (map ep_doc suf)) as [| n0 rest0].
+        * eexists. reflexivity.
+        * rewrite HD. unfold set_cursors.
+          cbn [it_norm1 it_doc1 it_all it_actual it_clean it_cs it_cur it_fr it_lr it_fn it_locs it_fields].
+          eexists. reflexivity.
+      + right. exists sk, p', suf', (map ep_doc suf'), (filter lp (map ep_doc suf')).
+        destruct (filter lp (map ep_doc suf)) as [| n0 rest0] eqn:Eac; [discriminate HD |].
+        rewrite HD. subst suf.
+        destruct (decomp_facts _ _ _ _ Hps) as (Hin & Hsk & Hps').
+        rewrite map_app. cbn [map].
+        rewrite sync_nf.
+        * rewrite rbind_ok. cbv beta iota. unfold set_cursors.
+          cbn [it_norm1 it_doc1 it_all it_actual it_clean it_cs it_cur it_fr it_lr it_fn it_locs it_fields andb].
+          rewrite rbind_ok.
+          do 4 (split; [auto |]). split; [reflexivity |]. repeat split; reflexivity.
+        * apply Forall_forall. intros a Ha. apply in_map_iff in Ha. destruct Ha as (q & <- & Hq).
+          destruct (Hsk q Hq) as [_ Hlt]. lia.
+    - destruct HC as (-> & ->).
+      destruct (drop_lt_decomp (fun _ => true) d suf)
+        as [[HF HD] | (sk & p' & suf' & Hsuf & HF & Hlp & Hd' & HD)]; rewrite !filter_true in HD.
+      + left. split; [exact HF |].
+        destruct (map ep_doc suf) as [| n0 rest0].
+        * eexists. reflexivity.
+        * rewrite HD. unfold set_cursors.
+          cbn [it_norm1 it_doc1 it_all it_actual it_clean it_cs it_cur it_fr it_lr it_fn it_locs it_fields].
+          eexists. reflexivity.
+      + right. exists sk, p', suf', (map ep_doc suf'), (map ep_doc suf').
+        destruct (map ep_doc suf) as [| n0 rest0] eqn:Eac; [discriminate HD |].
+        rewrite HD. unfold set_cursors.
+        cbn [it_norm1 it_doc1 it_all it_actual it_clean it_cs it_cur it_fr it_lr it_fn it_locs it_fields].
+        do 4 (split; [auto |]). split; [reflexivity |]. split; reflexivity.
+  Qed.
+
+  Lemma run_ok_nf mode : inclLocs = false -> forall ops pre suf al ac cl cur fr lr,
+    wf_ops ops -> ps = pre ++ suf -> Cur mode suf al ac cl ->
+    it_run (mkn al ac cl cur fr lr) ops = Ok (spec_out false inclLocs (stf (lp_of mode) suf) ops).
+  Proof.
+    intros HL.
+    induction ops as [| op ops IH]; intros pre suf al ac cl cur fr lr Hops Hps HC; [reflexivity |].
+    destruct (wf_ops_d _ _ Hops) as [Hd Hops'].
+    cbn [it_run]. rewrite it_step_d_of, naa_unfold.
+    unfold spec_out. cbn [spec_run]. rewrite spec_step_d_of.
+    destruct (nd_any_nf mode (d_of op) pre suf al ac cl cur fr lr Hd Hps HC)
+      as [[HF (al' & E)] | (sk & p' & suf' & al' & ac' & H1 & H2 & H3 & H4 & E & HC')].
+    - rewrite E, rbind_ok. cbv beta iota. rewrite rbind_ok. cbv beta iota.
+      rewrite run_exhausted, rbind_ok.
+      rewrite (spec_miss (lp_of mode) (d_of op) suf HF).
+      cbn [map option_map].
+      pose proof (spec_out_nil false inclLocs ops) as Hnil. unfold spec_out in Hnil. rewrite Hnil.
+      reflexivity.
+    - rewrite E, rbind_ok. cbv beta iota.
+      subst suf. destruct (decomp_facts _ _ _ _ Hps) as (Hin & Hsk & Hps').
+      unfold finish. cbn [it_fn negb]. rewrite rbind_ok. cbv beta iota.
+      rewrite (spec_hit (lp_of mode) (d_of op) p' suf' sk H2 H3 H4).
+      rewrite (IH (pre ++ sk ++ [p']) suf' al' ac' cl cur fr lr Hops').
+      + rewrite rbind_ok. cbn [map option_map]. unfold resolve_posting at 1. cbn [deliver].
+        rewrite HL. reflexivity.
+      + rewrite Hps'. rewrite <- !app_assoc. reflexivity.
+      + exact HC'.
+  Qed.
+
+End Gen.
+
+(* ================================================================== *)
+(* the refinement theorems                                             *)
+(* ================================================================== *)
+
+Lemma sorted_filter {A} (R : A -> A -> Prop) (f : A -> bool) (l : list A) :
+  StronglySorted R l -> StronglySorted R (filter f l).
+Proof.
+  induction 1 as [| a l Hs IH Hf]; cbn [filter]; [constructor |].
+  destruct (f a); [| exact IH]. constructor; [exact IH |].
+  rewrite Forall_forall in *. intros x Hx. apply filter_In in Hx. apply Hf. apply Hx.
+Qed.
+
+Lemma abm_filter (all abm : list N) :
+  StronglySorted N.lt all -> StronglySorted N.lt abm -> (forall d, In d abm -> In d all) ->
+  abm = filter (fun d => memN d abm) all.
+Proof.
+  intros Hall Habm Hsub. apply strict_sorted_N_ext.
+  - exact Habm.
+  - apply sorted_filter. exact Hall.
+  - intros x. rewrite filter_In, memN_In. split; [intros H; split; auto | intros [_ H]; exact H].
+Qed.
+
+Lemma init_dec_ok (ps : list EPosting) (cs : N) (total : nat) (inclLocs : bool) (old : option It) :
+  let fr0 := match old with Some o => dec_reset (it_fr o) | None => dec_fresh end in
+  let lr0 := match old with Some o => dec_reset (it_lr o) | None => dec_fresh end in
+  DecOK ps cs total inclLocs (dec_open fr0 (Some (chunks_of freq_entry cs total ps)))
+        (if inclLocs then dec_open lr0 (if existsb ep_hasLocs ps then Some (chunks_of loc_entry cs total ps) else None)
+         else lr0)
+  /\ dec_isNil (dec_open fr0 (Some (chunks_of freq_entry cs total ps))) = true.
+Proof.
+  cbv zeta. split; [split |].
+  - reflexivity.
+  - intros ->. reflexivity.
+  - destruct old; reflexivity.
+Qed.
+
+Theorem iter_refines_nofreq (fields : list bytes) (ps : list EPosting) (cs : N) (total : nat)
+        (except : option (list N)) (old : option It) (ops : list iter_op) :
+  wf_postings (length fields) ps -> 0 < cs ->
+  (forall p, In p ps -> (N.to_nat (ep_doc p / cs) < total)%nat) -> wf_ops ops ->
+  it_run (it_init (encode_gen cs total ps) except false false fields old) ops
+  = Ok (spec_out false false
+          (filter (fun p => live_opt except (fst p)) (map (resolve_posting fields) ps)) ops).
+Proof.
+  intros Hwf Hcs Htot Hops.
+  unfold encode_gen, it_init. destruct except as [ex |].
+  - apply (run_ok_nf fields ps cs total false Hwf Hcs Htot (Some (fun d => negb (memN d ex))) eq_refl ops [] ps);
+      [exact Hops | reflexivity |].
+    cbn [Cur]. repeat split; reflexivity.
+  - apply (run_ok_nf fields ps cs total false Hwf Hcs Htot None eq_refl ops [] ps);
+      [exact Hops | reflexivity |].
+    cbn [Cur]. split; reflexivity.
+Qed.
+
+Theorem iter_refines (fields : list bytes) (ps : list EPosting) (cs : N) (total : nat)
+        (except : option (list N)) (inclFN inclLocs : bool) (old : option It) (ops : list iter_op) :
+  wf_postings (length fields) ps -> 0 < cs ->
+  (forall p, In p ps -> (N.to_nat (ep_doc p / cs) < total)%nat) ->
+  (inclLocs = true -> inclFN = true) -> wf_ops ops ->
+  it_run (it_init (encode_gen cs total ps) except inclFN inclLocs fields old) ops
+  = Ok (spec_out inclFN inclLocs
+          (filter (fun p => live_opt except (fst p)) (map (resolve_posting fields) ps)) ops).
+Proof.
+  intros Hwf Hcs Htot Hfl Hops.
+  destruct inclFN.
+  2:{ destruct inclLocs; [specialize (Hfl eq_refl); discriminate |].
+      apply iter_refines_nofreq; assumption. }
+  destruct (init_dec_ok ps cs total inclLocs old) as [Hdec Hnil]. cbv zeta in Hdec, Hnil.
+  unfold encode_gen, it_init. destruct except as [ex |].
+  - apply (run_ok fields ps cs total inclLocs Hwf Hcs Htot (Some (fun d => negb (memN d ex))) ops [] ps);
+      [exact Hops | reflexivity | |].
+    + apply inv_init; assumption.
+    + cbn [Cur]. repeat split; reflexivity.
+  - apply (run_ok fields ps cs total inclLocs Hwf Hcs Htot None ops [] ps);
+      [exact Hops | reflexivity | |].
+    + apply inv_init; assumption.
+    + cbn [Cur]. split; reflexivity.
+Qed.
+
+Theorem iter_refines_replaced (fields : list bytes) (ps : list EPosting) (cs : N) (total : nat)
+        (except : option (list N)) (inclFN inclLocs : bool) (old : option It) (abm : list N) (ops : list iter_op) :
+  wf_postings (length fields) ps -> 0 < cs ->
+  (forall p, In p ps -> (N.to_nat (ep_doc p / cs) < total)%nat) ->
+  (inclLocs = true -> inclFN = true) -> wf_ops ops ->
+  StronglySorted N.lt abm -> (forall d, In d abm -> In d (map ep_doc ps)) ->
+  it_run (it_replace (it_init (encode_gen cs total ps) except inclFN inclLocs fields old) abm) ops
+  = Ok (spec_out inclFN inclLocs
+          (filter (fun p => memN (fst p) abm) (map (resolve_posting fields) ps)) ops).
+Proof.
+  intros Hwf Hcs Htot Hfl Hops Habm Hsub.
+  assert (HC : Cur (Some (fun d => memN d abm)) ps (map ep_doc ps) abm false).
+  { cbn [Cur]. split; [reflexivity |]. split; [reflexivity |].
+    apply abm_filter; [| exact Habm | exact Hsub].
+    apply sorted_map_doc. apply Hwf. }
+  destruct inclFN.
+  - destruct (init_dec_ok ps cs total inclLocs old) as [Hdec Hnil]. cbv zeta in Hdec, Hnil.
+    unfold encode_gen, it_init, it_replace.
+    destruct except as [ex |];
+      cbn [it_norm1 it_doc1 it_all it_actual it_clean it_cs it_cur it_fr it_lr it_fn it_locs it_fields];
+      (apply (run_ok fields ps cs total inclLocs Hwf Hcs Htot (Some (fun d => memN d abm)) ops [] ps);
+       [exact Hops | reflexivity | apply inv_init; assumption | exact HC]).
+  - destruct inclLocs; [specialize (Hfl eq_refl); discriminate |].
+    unfold encode_gen, it_init, it_replace.
+    destruct except as [ex |];
+      cbn [it_norm1 it_doc1 it_all it_actual it_clean it_cs it_cur it_fr it_lr it_fn it_locs it_fields];
+      (apply (run_ok_nf fields ps cs total false Hwf Hcs Htot (Some (fun d => memN d abm)) eq_refl ops [] ps);
+       [exact Hops | reflexivity | exact HC]).
+Qed.
+
+(* ================================================================== *)
+(* non-vacuity                                                         *)
+(* ================================================================== *)
+
+Definition ex_fields : list bytes := [[95; 105; 100]; [98]].
+Definition ex_ps : list EPosting :=
+  [ (0, (2, (1065353216, [(0, (1, (0, 5))); (1, (3, (10, 15)))])));
+    (2, (1, (1056964608, [])));
+    (3, (3, (1050000000, [(1, (2, (4, 300)))])));
+    (7, (1, (1065353216, [(0, (200, (1000, 1005)))])));
+    (9, (4, (1040000000, []))) ].
+Definition ex_ops : list iter_op := [INext; IAdvance 3; INext; IAdvance 20; INext].
+
+Definition ex_expected : list (option APosting) :=
+  [ Some (0, (2, (1065353216, [([95; 105; 100], (1, (0, 5))); ([98], (3, (10, 15)))])));
+    Some (7, (1, (1065353216, [([95; 105; 100], (200, (1000, 1005)))])));
+    Some (9, (4, (1040000000, [])));
+    None; None ].
+
+Example ex_wf : wf_postings 2 ex_ps.
+Proof.
+  split.
+  - repeat constructor.
+  - unfold ex_ps. repeat (apply Forall_cons || apply Forall_nil);
+      unfold wf_posting, wf_loc, ep_doc, ep_freq, ep_norm, ep_locs; cbn [fst snd length map];
+      repeat (apply Forall_cons || apply Forall_nil || split); try (vm_compute; reflexivity); vm_compute; lia.
+Qed.
+
+Example ex_hyps :
+  0 < 2 /\ (forall p, In p ex_ps -> (N.to_nat (ep_doc p / 2) < 5)%nat) /\ wf_ops ex_ops.
+Proof.
+  split; [reflexivity |]. split.
+  - intros p Hp. cbn [ex_ps In] in Hp.
+    repeat (destruct Hp as [<- | Hp]; [vm_compute; lia |]). destruct Hp.
+  - repeat constructor.
+Qed.
+
+Example ex_both_sides :
+  it_run (it_init (encode_gen 2 5 ex_ps) (Some [3]) true true ex_fields None) ex_ops = Ok ex_expected
+  /\ spec_out true true
+       (filter (fun p => live_opt (Some [3]) (fst p)) (map (resolve_posting ex_fields) ex_ps)) ex_ops
+     = ex_expected.
+Proof. split; vm_compute; reflexivity. Qed.
+
+(* the same equation obtained from the theorem *)
+Example ex_by_theorem :
+  it_run (it_init (encode_gen 2 5 ex_ps) (Some [3]) true true ex_fields None) ex_ops
+  = Ok (spec_out true true
+          (filter (fun p => live_opt (Some [3]) (fst p)) (map (resolve_posting ex_fields) ex_ps)) ex_ops).
+Proof.
+  destruct ex_hyps as (H1 & H2 & H3).
+  apply (iter_refines ex_fields ex_ps 2 5 (Some [3]) true true None ex_ops ex_wf H1 H2 (fun _ => eq_refl) H3).
+Qed.
+
